@@ -367,7 +367,8 @@ impl<W, R, T> CompilationScope<'_, W, R, T> {
                 let mut inners = input.clone().into_inner();
                 let part1 = inners.next().unwrap();
                 match part1.as_rule() {
-                    Rule::signature => {
+                    Rule::paren_type => {
+                        // `(A, B)` is a tuple type, `(A, B)->(R)` a function type
                         let mut sig_inners = part1.into_inner();
                         let param_spec_opt = sig_inners.next().unwrap();
                         let param_types = param_spec_opt
@@ -388,37 +389,21 @@ impl<W, R, T> CompilationScope<'_, W, R, T> {
                             })
                             .transpose()?
                             .unwrap_or_default();
-                        let return_type = self.get_complete_type(
-                            sig_inners.next().unwrap(),
-                            generic_param_names,
-                            interner,
-                            tail_name,
-                            false,
-                        )?;
-                        Ok(Arc::new(XType::XCallable(XCallableSpec {
-                            param_types,
-                            return_type,
-                        })))
-                    }
-                    Rule::tup_type => {
-                        let mut tup_inners = part1.into_inner();
-                        match tup_inners.next() {
-                            None => Ok(Arc::new(XType::Tuple(vec![]))),
-                            Some(inner) => {
-                                let tup_types = inner
-                                    .into_inner()
-                                    .map(|i| {
-                                        self.get_complete_type(
-                                            i,
-                                            generic_param_names,
-                                            interner,
-                                            tail_name,
-                                            false,
-                                        )
-                                    })
-                                    .collect::<Result<Vec<_>, _>>()?;
-                                Ok(Arc::new(XType::Tuple(tup_types)))
+                        match sig_inners.next() {
+                            Some(signature_return) => {
+                                let return_type = self.get_complete_type(
+                                    signature_return.into_inner().next().unwrap(),
+                                    generic_param_names,
+                                    interner,
+                                    tail_name,
+                                    false,
+                                )?;
+                                Ok(Arc::new(XType::XCallable(XCallableSpec {
+                                    param_types,
+                                    return_type,
+                                })))
                             }
+                            None => Ok(Arc::new(XType::Tuple(param_types))),
                         }
                     }
                     Rule::auto_type => {
